@@ -304,6 +304,59 @@ func (w *world) selectPos(a int, sel int, own bool, lit uint64) uint64 {
 	return cand[sel%len(cand)]
 }
 
+// findBalance: see the "balance" op.
+func (w *world) findBalance(sel int) (uint64, string, int, bool) {
+	k := w.h.App.ConcentratedLiquidityKeeper
+	ticks, err := k.GetAllInitializedTicksForPool(w.h.Ctx, w.poolId)
+	if err != nil {
+		return 0, "", 0, false
+	}
+	type cand struct {
+		id    uint64
+		liq   string
+		owner int
+	}
+	var cands []cand
+	ids := w.allPositionIds()
+	for _, t := range ticks {
+		net := t.Info.LiquidityNet
+		if net.IsZero() {
+			continue
+		}
+		hasLower, hasUpper := false, false
+		for _, id := range ids {
+			p, _ := k.GetPosition(w.h.Ctx, id)
+			hasLower = hasLower || p.LowerTick == t.TickIndex
+			hasUpper = hasUpper || p.UpperTick == t.TickIndex
+		}
+		if !hasLower || !hasUpper {
+			continue
+		}
+		for _, id := range ids {
+			p, _ := k.GetPosition(w.h.Ctx, id)
+			oi := w.accIdx(p.Address)
+			if oi < 0 {
+				continue
+			}
+			// heavier side: lower boundary positions when net > 0, upper boundary positions when net < 0
+			if net.IsPositive() && p.LowerTick == t.TickIndex && p.Liquidity.GTE(net) {
+				cands = append(cands, cand{id, rawDec(net), oi})
+			}
+			if net.IsNegative() && p.UpperTick == t.TickIndex && p.Liquidity.GTE(net.Neg()) {
+				cands = append(cands, cand{id, rawDec(net.Neg()), oi})
+			}
+		}
+	}
+	if len(cands) == 0 {
+		return 0, "", 0, false
+	}
+	if sel < 0 {
+		sel = -sel
+	}
+	c := cands[sel%len(cands)]
+	return c.id, c.liq, c.owner, true
+}
+
 func (w *world) dump(o *obsStep) {
 	ctx := w.h.Ctx
 	k := w.h.App.ConcentratedLiquidityKeeper
@@ -527,6 +580,19 @@ func (w *world) step(c caseIn, op opIn) obsStep {
 			}
 			return err
 		})
+	case "balance":
+		// make the NET liquidity of a shared boundary tick exactly zero while its gross stays positive: find a tick T that is the
+		// upper boundary of some positions and the lower boundary of others, and withdraw |net(T)| from one position on the heavier
+		// side (by its owner).  Resolved to a plain withdraw; falls back to an ordinary withdraw when there is no such tick.
+		if id, liq, owner, ok := w.findBalance(op.Sel); ok {
+			op.K, op.Id, op.Liq, op.Own, op.A = "withdraw", id, liq, false, owner
+		} else {
+			op.K, op.Own = "withdraw", true
+			if op.Den == 0 {
+				op.Num, op.Den = 1, 2
+			}
+		}
+		return w.step(c, op)
 	case "withdraw":
 		id := w.selectPos(a, op.Sel, op.Own, op.Id)
 		if op.Own && op.Id == 0 {
